@@ -50,6 +50,7 @@ inductive LeafSpec
 inductive UnKind
   | thenF (f : Fn) | uponError (f : Fn) | uponDone (v : Nat)
   | matDemat | doneAsOpt (d : Nat) | unstoppable | withTag (q : Nat) | withSrc | erase
+  | intoVariant | deferK | allocate
   deriving DecidableEq, Repr
 
 inductive BinKind
@@ -58,6 +59,7 @@ inductive BinKind
 
 inductive ConstKind
   | just (v : Nat) | justError (e : Nat) | justDone | argv (k : Nat) | stopIfRequested
+  | justFrom (v : Nat) | justVoidOrDone (isVoid : Bool)
   deriving DecidableEq, Repr
 
 inductive Expr
@@ -144,6 +146,8 @@ def ConstKind.outcome (k : ConstKind) (env : Env) : Outcome :=
   | .justDone => .done
   | .argv k => .value (env.arg + k)
   | .stopIfRequested => if env.stopped then .done else .value 0
+  | .justFrom v => .value v
+  | .justVoidOrDone b => if b then .value 0 else .done
 
 /-- how a unary adaptor maps its child's completion -/
 def UnKind.map (k : UnKind) (o : Outcome) : Outcome :=
